@@ -96,9 +96,9 @@ def corrupt_probe(ctx, obs, want_by_id):
             victims.append(v)
             break
     for o in obs:   # (b) an option error loses one of its classes
-        if o["out"]["k"] == "err" and len(o["out"].get("cls", [])) == 2 and want_by_id[o["id"]].get("k") == "opterr":
+        if o["out"]["k"] == "err" and {"ExistingConstant", "UnsupportedType"} <= set(o["out"].get("cls", [])) and want_by_id[o["id"]].get("k") == "opterr":
             v = copy.deepcopy(o)
-            v["out"]["cls"] = v["out"]["cls"][:1]
+            v["out"]["cls"] = [c for c in v["out"]["cls"] if c != "UnsupportedType"]
             victims.append(v)
             break
     for o in obs:   # (c) a spliced collection comes back with an item dropped
